@@ -142,3 +142,31 @@ VARIANTS += [
     dict(prop="C16", name="yes-without-removal", expect="ORDER-take",
          edits=[dict(file=BTF, find="                batch = self.batches[batch_offset].take();", replace="                let (validation_result, _) = watch::channel::<bool>(false);\n                batch = Some(BatchState { batch: (self.batch_constructor)(batch_index), validation_result, pending_count: 0, pending_records: bitvec![0; 1] });")]),
 ]
+
+DPF = "ipa-core/src/protocol/dp/mod.rs"
+BRF = "ipa-core/src/protocol/hybrid/breakdown_reveal.rs"
+SHM = "ipa-core/src/protocol/ipa_prf/shuffle/malicious.rs"
+RVF = "ipa-core/src/protocol/basics/reveal.rs"
+VAF = "ipa-core/src/protocol/context/validator.rs"
+PEF = "ipa-core/src/protocol/ipa_prf/prf_eval.rs"
+VARIANTS += [
+    # ---------------- C02 ----------------
+    dict(prop="C02", name="dp-validate-deleted", expect="PAIR-validated|protocol::dp::dp_for_histogram#1",
+         edits=[dict(file=DPF, find="            .await?;\n\n            dp_validator.validate().await?;\n\n            Ok(Vec::transposed_from(&noised_output)?)", replace="            .await?;\n\n            Ok(Vec::transposed_from(&noised_output)?)")]),
+    dict(prop="C02", name="validate-indexed-result-dropped", expect="PAIR-validated|protocol::hybrid::breakdown_reveal::breakdown_reveal_aggregation#1",
+         edits=[dict(file=BRF, find="            validator.validate_indexed(chunk_counter).await?;", replace="            let _ = validator.validate_indexed(chunk_counter).await;")]),
+    dict(prop="C02", name="verify-after-truncate", expect="ORDER-shuffle|verify-before-release",
+         edits=[dict(file=SHM, find="    verify_shuffle::<_, S>(\n        ctx.narrow(&ShardedShuffleStep::VerifyShuffle),\n        &keys,\n        &shuffled_shares,\n        messages,\n    )\n    .await?;\n\n    // truncate tags from output_shares\n    // verify_shuffle ensures that truncate_tags yields the correct rows\n    Ok(truncate_tags::<S>(&shuffled_shares))",
+                     replace="    let rows = truncate_tags::<S>(&shuffled_shares);\n    let verified = verify_shuffle::<_, S>(\n        ctx.narrow(&ShardedShuffleStep::VerifyShuffle),\n        &keys,\n        &shuffled_shares,\n        messages,\n    )\n    .await;\n    if verified.is_err() {\n        tracing::warn!(\"shuffle verification failed\");\n    }\n    Ok(rows)")]),
+    dict(prop="C02", name="reveal-before-validate", expect="ORDER-open|protocol::ipa_prf::prf_eval::eval_dy_prf",
+         edits=[dict(file=PEF, find="    // validate everything before reveal\n    ctx.validate_record(record_id).await?;\n    let (gr, z): (", replace="    let (gr, z): ("),
+                dict(file=PEF, find="    .await?;\n\n    //compute R^(1/z) to u64", replace="    .await?;\n    ctx.validate_record(record_id).await?;\n\n    //compute R^(1/z) to u64")]),
+    dict(prop="C02", name="hash-check-dropped", expect="GUARD-shuffle-hash|h1_verify",
+         edits=[dict(file=SHM, find="    // check h2\n    if hash_a_xor_b.ct_ne(&hash_h2).into() {", replace="    // check h2\n    if hash_a_xor_b.ct_ne(&hash_h3).into() {")]),
+    dict(prop="C02", name="reveal-compares-self", expect="GUARD-reveal|malicious_reveal:two-copies",
+         edits=[dict(file=RVF, find="        if share_from_left == share_from_right {", replace="        if share_from_left == share_from_left {")]),
+    dict(prop="C02", name="mac-verdict-inverted", expect="GUARD-mac|mac-validate:ok-only-if-zero",
+         edits=[dict(file=VAF, find="        if is_valid {", replace="        if !is_valid {")]),
+    dict(prop="C02", name="open-without-validation", expect="ORDER-open|protocol::ipa_prf::boolean_ops::share_conversion_aby::convert_to_fp25519",
+         edits=[dict(file="ipa-core/src/protocol/ipa_prf/boolean_ops/share_conversion_aby.rs", find="        validated_partial_reveal(ctx.narrow(&Step::RevealY), record_id, Role::H3, &sh_y).await?;", replace="        crate::protocol::basics::partial_reveal(ctx.narrow(&Step::RevealY), record_id, Role::H3, &sh_y).await?;")]),
+]
